@@ -405,12 +405,15 @@ def server_success_codes(idx, route, range_sent):
     cfg = fn.cfg()
     codes = {c for (_n, c) in set_codes(fn) + raised_codes(fn) if 200 <= c < 300}
     implicit = find_path_avoiding(cfg, is_return, gate_node=has_call("setResponseCode"))
+    sm = idx.module(SRV)
     for (n, _w) in implicit:
         v = n.ast.value
-        helpers = [c for c in (own_nodes(v) if v is not None else []) if isinstance(c, ast.Call) and call_tail(c) == "read_range"]
+        helpers = [sm.funcs[c.func.id] for c in (own_nodes(v) if v is not None else [])
+                   if isinstance(c, ast.Call) and isinstance(c.func, ast.Name) and c.func.id in sm.funcs]
+        helpers = [h for h in helpers if set_codes(h) or raised_codes(h)]
         if helpers:
-            rr = idx.func("storage.http_server:read_range")
-            codes |= read_range_codes(rr, range_sent)
+            for h in helpers:
+                codes |= read_range_codes(h, range_sent)
         else:
             codes.add(200)
     return codes
@@ -731,6 +734,7 @@ def run(ctx: Context):
             a_rem = arg(c, pf.index("remaining"), "remaining") if "remaining" in pf else None
             if a_start is None or a_rem is None:
                 raise AnchorVanished("_ReadRangeProducer(start, remaining)")
+            a_rem = rn.resolve(n, a_rem)
             if not r.require(isinstance(a_rem, ast.BinOp) and isinstance(a_rem.op, ast.Sub) and isinstance(a_rem.left, ast.Name)
                              and rn.norm(n, a_rem.right) == rn.norm(n, a_start), rr, rr.loc(c),
                              "the producer is asked for %s bytes from %s (expected end - start)" % (src(rr, a_rem), src(rr, a_start))):
@@ -894,6 +898,9 @@ def run(ctx: Context):
             sorted(table.values()), sorted(want_members)))
         for p, mname in table.items():
             r.require(p in rq.params, rq, rq.loc(lp), "%s is not a parameter of _request" % p)
+            wire = str(member_value.get(mname, "?")).replace("-", "_")
+            r.require(wire in p or p in wire, rq, rq.loc(lp), "the %s argument is sent under the secret name %r "
+                      "(Secrets.%s)" % (p, member_value.get(mname), mname))
         hdr = [c for n in ast.walk(lp) if isinstance(n, ast.Call) and call_tail(n) == "addRawHeader" for c in [n]]
         srv_route = idx.func("storage.http_server:_authorization_decorator.decorator.route")
         srv_names = {c.args[0].value.lower() for c in calls_in_func(srv_route, "getRawHeaders")
